@@ -138,12 +138,12 @@ def run(chk):
                 ok = False
     # ---- the instants themselves: t = 0, t1, t2 (and t3 for position): the value must be present and be the closed form there
     if len(forms) == 9:
-        tfs = sorted({str(s_) for e in forms.values() for s_ in e.free_symbols if str(s_).startswith("self.t")})
+        tfs = C06.time_symbol_names(sim, prog)
         bpoints = [("0", (0, 1, 2, 3, 0), 1, sp.Integer(0), ("v", "p"))]
         if len(tfs) >= 2:
             bpoints += [("t1", (0, 1, 2, 3, 1), 1, A.sym(tfs[0]), ("v", "p")), ("t2", (0, 1, 2, 3, 2), 2, A.sym(tfs[1]), ("v", "p"))]
-        if len(tfs) >= 3:
-            bpoints += [("t3", (0, 1, 2, 3, 3), 3, A.sym(tfs[2]), ("p",))]
+        # (t = t3 itself belongs to the completed piece: the end command's own value; that it equals the closed form there is the
+        #  goal rule below, which substitutes the constructor's durations)
         for bname, ranks, ph, tval, which in bpoints:
             st, oid, tv, names = C06.setup(sim, prog, ranks, "Position")
             for nm, fn in (("v", f_vel), ("p", f_pos)):
@@ -171,7 +171,7 @@ def run(chk):
         # symbols of the profile
         mp = [s_ for s_ in forms[(1, "a")].free_symbols]
         a = forms[(1, "a")]
-        tfields = sorted({str(s_) for e in forms.values() for s_ in e.free_symbols if str(s_).startswith("self.t")})
+        tfields = C06.time_symbol_names(sim, prog)
         t1, t2 = [A.sym(n) for n in tfields[:2]] if len(tfields) >= 2 else (None, None)
         v0 = forms[(1, "v")].subs(tsym, 0)
         p0 = forms[(1, "p")].subs(tsym, 0)
@@ -255,21 +255,22 @@ def run(chk):
         nret += 1
         chk.evaluated(1, nontrivial=(key, repr([p for p in leaf.pc if p[0] == "frel"][:1])))
         prof = sim.final_value(leaf.state, leaf.value)
-        fnames = [n for n, _ in sim.adt_fields(C06.mp_ty(prog))]
+        import layout
         subs = {}
         try:
-            for n, fv in zip(fnames, prof.fields):
+            for n, fv in layout.value_leaves(sim, prof, stop=("Time", "Quantity", "Command")):
                 if isinstance(fv, Struct) and fv.ty and fv.ty.get("name") == "Quantity":
                     subs[A.sym("self.%s.value" % n)] = A.to_sympy(fv.fields[0], env)
                 elif isinstance(fv, Struct) and fv.ty and fv.ty.get("name") == "Time":
                     x = fv.fields[0]           # FloatToInt(Mul(X, 1e9)) -> X seconds
                     subs[A.sym("self.%s.0" % n)] = A.to_sympy(x, env)
+                elif isinstance(fv, (Sym, Term, Const)) and not isinstance(fv, Enum) and getattr(fv, "ty", None) is not None and fv.ty.get("k") == "prim" and fv.ty.get("name") in ("f32", "f64"):
+                    subs[A.sym("self.%s" % n)] = A.to_sympy(fv, env)       # a bare float kept in a private sub-struct
         except Exception as e:
             chk.violation("C07.goal", key + ":nonarith", "constructor result not arithmetic: %s" % e)
             okg = False
             continue
-        t3 = [k_ for k_ in subs if str(k_).startswith("self.t")]
-        t3s = sorted(t3, key=str)[-1]
+        t3s = A.sym(C06.time_symbol_names(sim, prog)[2])
         sign = None
         for p in leaf.pc:
             if p[0] == "frel" and p[1] in ("end.position ? start.position", "start.position ? end.position"):
